@@ -13,7 +13,8 @@ Clause(v) ==
   ELSE IF v.k = "seq" THEN      \* up to three frames waiting in the RX FIFO when update() is called (and again until it is empty)
      (LET Bad(r) == Len(r) < 8 \/ ~IsValid(UnpackHdr(r).from) \/ ~IsValid(UnpackHdr(r).to)
           nGood == Cardinality({i \in 1..Len(v.raws) : ~Bad(v.raws[i])}) IN
-      IF v.exc # "none" THEN <<"C15.NoRaise", "update() raised " \o v.exc \o " with several frames waiting">>
+      IF v.exc = "Deaf" THEN <<"C07.Listening", "the node's radio does not take a packet sent to one of its own pipe addresses">>
+      ELSE IF v.exc # "none" THEN <<"C15.NoRaise", "update() raised " \o v.exc \o " with several frames waiting">>
       ELSE IF v.left > 0 THEN <<"C15.DropShort", "a received payload was neither consumed nor discarded: it stays in the RX FIFO and blocks the frames behind it">>
       ELSE IF v.dt > v.bound THEN <<"C15.Bounded", ToString(v.dt) \o " us">>
       ELSE IF v.queued > nGood THEN <<"C15.DropInvalid", "more frames queued than valid frames received">>
@@ -24,7 +25,8 @@ Clause(v) ==
   LET short == Len(v.raw) < 8
       h == IF short THEN Hdr(0, 0, 0, 0, 0) ELSE UnpackHdr(v.raw)
       invalid == ~short /\ (~IsValid(h.from) \/ ~IsValid(h.to)) IN
-  IF v.exc # "none" THEN <<"C15.NoRaise", "update() raised " \o v.exc>>
+  IF v.exc = "Deaf" THEN <<"C07.Listening", "the node's radio does not take a packet sent to one of its own pipe addresses">>
+  ELSE IF v.exc # "none" THEN <<"C15.NoRaise", "update() raised " \o v.exc>>
   ELSE IF v.left > 0 THEN <<"C15.DropShort", "the received payload was neither consumed nor discarded: it stays in the RX FIFO and blocks later frames">>
   ELSE IF v.dt > v.bound THEN <<"C15.Bounded", ToString(v.dt) \o " us">>
   ELSE IF short /\ (v.queued # 0 \/ v.ntx # 0) THEN <<"C15.DropShort", "a frame shorter than a header was queued or retransmitted">>
